@@ -263,6 +263,25 @@ impl Model {
         })
     }
 
+    /// directories a path walk reads before it fails (or all of them): they are searched, so with access-date stamping
+    /// on their entries may be stamped even when the call fails
+    pub fn walked_prefix(&self, start: usize, path: &str) -> Vec<usize> {
+        let comps = Self::comps(path);
+        let mut dir = start;
+        let mut via = vec![start];
+        let mut used = false;
+        for c in comps.iter() {
+            match self.step(dir, c, &mut used) {
+                Ok(d) => {
+                    dir = d;
+                    via.push(d);
+                }
+                Err(_) => break,
+            }
+        }
+        via
+    }
+
     /// one directory step (component must name a directory)
     pub fn step(&self, dir: usize, c: &str, used_dots: &mut bool) -> Result<usize, Vec<EK>> {
         if c == "." || c == ".." {
